@@ -9,7 +9,7 @@ Histories are arbitrary finite lists of operations: parses with any flags, modul
 change (clean or dirty), clock advance, damage to an entry / to a table layout / to the whole file,
 rows written by another pymoca version.
 
-Open finding **C01-F1** (see `known/C01.json`, `proposed_fixes/C01-1.diff`): when the file is deleted,
+Open finding **C01-F2** (see `known/C01.json`, `proposed_fixes/C01-1.diff`): when the file is deleted,
 overwritten, or loses its `models` table *after* this process has put it into
 `parse.initialized_dbs`, and the module is not reloaded, the next `parse` raises a `DatabaseError`.
 `damaged_while_initialised_raises` is that counterexample on the model; the theorems that need the
@@ -27,6 +27,9 @@ def Admissible (pf : Ver → TextId → Option TreeId) : Op → Prop
   | .corruptEntry x v (.good (some t)) => pf v x = some t
   | _ => True
 
+instance (pf : Ver → TextId → Option TreeId) (op : Op) : Decidable (Admissible pf op) := by
+  unfold Admissible; split <;> infer_instance
+
 /-- deleting / overwriting the file, dropping the `models` table or replacing it by one with other columns -/
 def damaging : Op → Bool
   | .corruptFile _ => true
@@ -39,7 +42,7 @@ def damaging : Op → Bool
 /-- **Every operation preserves the row invariant** (each stored row that unpickles to a tree holds the tree
     of the uncached parse of its own text under its own version) — including every corruption, from every
     state, and also when `parse` raises. -/
-theorem inv_step (s : St) (op : Op) (hadm : Admissible pf op) (h : Inv pf s) : Inv pf (step cfg pf s op).1 := by
+theorem inv_step (s : St) (op : Op) (hadm : Admissible pf op) (h : RowInv pf s) : RowInv pf (step cfg pf s op).1 := by
   cases op with
   | parse x days upd bypass =>
     simp only [step]
@@ -51,7 +54,7 @@ theorem inv_step (s : St) (op : Op) (hadm : Admissible pf op) (h : Inv pf s) : I
   | tick us => exact h
   | setInc us => exact h
   | corruptEntry x v b =>
-    simp only [step, Inv, damageEntry]
+    simp only [step, RowInv, damageEntry]
     cases hq : s.file.queryable with
     | none => exact h
     | some m =>
@@ -68,7 +71,7 @@ theorem inv_step (s : St) (op : Op) (hadm : Admissible pf op) (h : Inv pf s) : I
         simpa [Admissible, hm.1, hm.2] using hadm
       · simpa [hm] using h0
   | corruptLayout t how =>
-    simp only [step, Inv]
+    simp only [step, RowInv]
     cases hf : s.file with
     | garbage => simp [damageLayout, FileInv, rowsOf]
     | db m mt =>
@@ -77,9 +80,9 @@ theorem inv_step (s : St) (op : Op) (hadm : Admissible pf op) (h : Inv pf s) : I
         all_goals (try (rename_i mm; intro r hr; split at hr <;> simp_all))
       intro r hr
       exact h r (by rw [hf]; exact hrows r hr)
-  | corruptFile how => cases how <;> simp [step, Inv, damageFile, FileInv, rowsOf]
+  | corruptFile how => cases how <;> simp [step, RowInv, damageFile, FileInv, rowsOf]
   | foreignWrite x v d =>
-    simp only [step, Inv, foreignWrite]
+    simp only [step, RowInv, foreignWrite]
     cases hpf : pf v x with
     | none => exact h
     | some t =>
@@ -88,7 +91,7 @@ theorem inv_step (s : St) (op : Op) (hadm : Admissible pf op) (h : Inv pf s) : I
       | error e => exact h
       | ok f => exact fileInv_insert h hpf hi
 
-example : Inv (fun _ x => if x = 1 then none else some (x + 10))
+example : RowInv (fun _ x => if x = 1 then none else some (x + 10))
     (finalState ⟨["Exception"]⟩ (fun _ x => if x = 1 then none else some (x + 10)) (St.initial 5)
       [.parse 0 30 false false, .parse 1 30 false false, .corruptEntry 0 0 (.bad .eof), .parse 0 30 true false]) := by
   intro r hr t ht
@@ -105,8 +108,8 @@ example : Inv (fun _ x => if x = 1 then none else some (x + 10))
 /-- **A parse returns exactly what the uncached parser returns** — a tree equal to the fresh one, `none`
     exactly for a syntax error, never an exception — from every state that satisfies the invariant, whatever
     damaged entries, layouts or file it contains; *partial*: states in which the file was damaged after this
-    process initialised it (`¬ Synced`, finding C01-F1) are excluded. -/
-theorem parse_transparent_partial (hc : CaughtAll cfg) (s : St) (h : Inv pf s) (hs : Synced s)
+    process initialised it (`¬ Synced`, finding C01-F2) are excluded. -/
+theorem parse_transparent_partial (hc : CaughtAll cfg) (s : St) (h : RowInv pf s) (hs : Synced s)
     (x : TextId) (days : Int) (upd bypass : Bool) :
     (step cfg pf s (.parse x days upd bypass)).2 = some (.value (pf s.ver x)) := by
   simp only [step]
@@ -114,12 +117,12 @@ theorem parse_transparent_partial (hc : CaughtAll cfg) (s : St) (h : Inv pf s) (
   · rfl
   · simp only [(parseCached_spec (x := x) (days := days) (upd := upd) hc h hs).1]
 
-example : Inv (fun _ _ => some 7) ⟨.db (some ⟨.noPk, [⟨0, 0, .bad .eof, 3⟩]⟩) (some .alien), false, 10, 1, 0, false⟩ ∧
+example : RowInv (fun _ _ => some 7) ⟨.db (some ⟨.noPk, [⟨0, 0, .bad .eof, 3⟩]⟩) (some .alien), false, 10, 1, 0, false⟩ ∧
     Synced ⟨.db (some ⟨.noPk, [⟨0, 0, .bad .eof, 3⟩]⟩) (some .alien), false, 10, 1, 0, false⟩ :=
   ⟨by intro r hr t ht; simp [rowsOf] at hr; subst hr; simp at ht, by intro h; cases h⟩
 
 /-- In particular the result is `none` iff the text has a syntax error. -/
-theorem none_iff_syntax_error_partial (hc : CaughtAll cfg) (s : St) (h : Inv pf s) (hs : Synced s)
+theorem none_iff_syntax_error_partial (hc : CaughtAll cfg) (s : St) (h : RowInv pf s) (hs : Synced s)
     (x : TextId) (days : Int) (upd bypass : Bool) :
     (step cfg pf s (.parse x days upd bypass)).2 = some (.value none) ↔ pf s.ver x = none := by
   rw [parse_transparent_partial hc s h hs]
@@ -151,7 +154,7 @@ def TransparentWhenSynced (cfg : Cfg) (pf : Ver → TextId → Option TreeId) : 
     (∀ x d u b, op = .parse x d u b → Synced s → (step cfg pf s op).2 = some (.value (pf s.ver x))) ∧
     TransparentWhenSynced cfg pf (step cfg pf s op).1 ops
 
-theorem synced_step (hc : CaughtAll cfg) (s : St) (op : Op) (h : Inv pf s) (hs : Synced s)
+theorem synced_step (hc : CaughtAll cfg) (s : St) (op : Op) (h : RowInv pf s) (hs : Synced s)
     (hd : damaging op = true → s.init = false) : Synced (step cfg pf s op).1 := by
   cases op with
   | parse x days upd bypass =>
@@ -186,8 +189,9 @@ theorem synced_step (hc : CaughtAll cfg) (s : St) (op : Op) (h : Inv pf s) (hs :
                try (split at hq <;> simp_all))
   | corruptFile how =>
     intro hi
+    have hi' : s.init = true := hi
     have := hd rfl
-    rw [this] at hi; cases hi
+    rw [this] at hi'; cases hi'
   | foreignWrite x v d =>
     intro hi
     have hq := hs hi
@@ -201,9 +205,9 @@ theorem synced_step (hc : CaughtAll cfg) (s : St) (op : Op) (h : Inv pf s) (hs :
     (in particular from a folder without a database), for every sequence of parses with any flags, reloads,
     version changes, clock advances, damaged entries, damaged metadata, `noPk` layouts and foreign rows —
     *partial*: the damaging operations (file deleted/overwritten, `models` table dropped/replaced) may only happen
-    while the process does not hold the database initialised (finding C01-F1 is the complement). -/
+    while the process does not hold the database initialised (finding C01-F2 is the complement). -/
 theorem history_transparent_partial (hc : CaughtAll cfg) (ops : List Op) :
-    ∀ (s : St), Inv pf s → Synced s → (∀ op ∈ ops, Admissible pf op) → Undamaged cfg pf s ops →
+    ∀ (s : St), RowInv pf s → Synced s → (∀ op ∈ ops, Admissible pf op) → Undamaged cfg pf s ops →
       Transparent cfg pf s ops := by
   induction ops with
   | nil => intros; trivial
@@ -218,7 +222,7 @@ theorem history_transparent_partial (hc : CaughtAll cfg) (ops : List Op) :
 /-- The same without any restriction on the history: every parse that starts from a synced state is
     transparent; the invariant itself never breaks, so a reload always restores transparency. -/
 theorem history_transparent_when_synced (hc : CaughtAll cfg) (ops : List Op) :
-    ∀ (s : St), Inv pf s → (∀ op ∈ ops, Admissible pf op) → TransparentWhenSynced cfg pf s ops := by
+    ∀ (s : St), RowInv pf s → (∀ op ∈ ops, Admissible pf op) → TransparentWhenSynced cfg pf s ops := by
   induction ops with
   | nil => intros; trivial
   | cons op ops ih =>
@@ -228,7 +232,7 @@ theorem history_transparent_when_synced (hc : CaughtAll cfg) (ops : List Op) :
     subst hop
     exact parse_transparent_partial hc s h hs x d u b
 
-theorem initial_inv (t0 : Int) : Inv pf (St.initial t0) := by
+theorem initial_inv (t0 : Int) : RowInv pf (St.initial t0) := by
   intro r hr; simp [St.initial, rowsOf] at hr
 
 theorem initial_synced (t0 : Int) : Synced (St.initial t0) := by
@@ -419,12 +423,8 @@ theorem planted_none_not_served :
     NoNone (finalState ⟨["Exception"]⟩ (fun _ _ => some 5) (St.initial 0)
       [.parse 0 30 false false, .corruptEntry 0 0 (.good none), .parse 0 30 false false]).file := by
   refine ⟨by decide +kernel, ?_⟩
-  intro r hr
-  simp [finalState, step, parseCached, initBlock, txIntegrity, txCheckModels, txCheckMeta, txMetaDefaults, txPrune,
-    txLookup, txTouch, txInsert, finish, St.initial, St.read, DbFile.queryable, DbFile.setRows, rowsOf, damageEntry,
-    matches_] at hr
-  subst hr
-  simp
+  unfold NoNone
+  decide +kernel
 
 /-! ### Obligation over the current sources; the open finding -/
 
@@ -439,7 +439,7 @@ theorem narrow_except_raises :
       [.parse 0 30 false false, .corruptEntry 0 0 (.bad .eof), .parse 0 30 false false]).map (·.2) =
       [some (.value (some 5)), none, some (.raised (.unpickle .eof))] := by decide +kernel
 
-/-- **Finding C01-F1 on the model**: parse, then the file is deleted (or overwritten, or the table dropped)
+/-- **Finding C01-F2 on the model**: parse, then the file is deleted (or overwritten, or the table dropped)
     while the process keeps it in `initialized_dbs`, then parse again: `DatabaseError`.  After a reload the
     same parse succeeds. -/
 theorem damaged_while_initialised_raises :
